@@ -43,8 +43,18 @@ pub fn slow_engine(e: EngineKind) -> bool {
     matches!(e, EngineKind::Naive | EngineKind::Lockstep | EngineKind::NeonEmu)
 }
 
+/// Slow engines (byte-at-a-time reference, five engines in lock step, emulated Neon) stay just above the 128 KiB mark.
+fn clamp_bytes_for(kind: Kind, b: usize) -> usize {
+    if slow_engine(kind.engine) && b > 140_000 {
+        131_136 + (b % 64)
+    } else {
+        b
+    }
+}
+
 fn gen_config_for(ch: &mut Chooser, kind: Kind) -> (usize, usize, usize) {
     let (k, r, b) = gen_config(ch, kind.layer.family());
+    let b = clamp_bytes_for(kind, b);
     if slow_engine(kind.engine) && k + r > 200 {
         // keep slow engines on small and medium stripes
         let (k2, r2) = gen_counts(ch, kind.layer.family(), 1);
@@ -119,6 +129,26 @@ pub fn alloc_check(ctx: &mut Ctx, kind: Kind, what: &str, rule: &'static str, ac
     false
 }
 
+/// The shard buffer already held is large enough and only the index bitmap has to grow: whatever is allocated must
+/// be of the bitmap's order of magnitude (a few bits per position), not a new shard buffer (>= 64 bytes per position).
+pub fn alloc_check_bitmap_only(ctx: &mut Ctx, kind: Kind, what: &str, acc: &AllocStats, need: Need) -> bool {
+    if kind.engine == EngineKind::Lockstep {
+        return false;
+    }
+    ctx.count("probe.only_the_bitmap_grows");
+    let allowance = need.bitmap_bits as u64 / 2 + 256; // growth by doubling, word padding, plus slack
+    if acc.largest > allowance && acc.largest >= 64 * (need.bitmap_bits as u64).max(8) / 4 {
+        return ctx.viol(
+            &["C17"],
+            "no-allocation",
+            format!("alloc/shard-buffer-where-only-the-bitmap-grows/{}", what.split('(').next().unwrap_or(what)),
+            format!("{} {what}: an allocation of {} bytes although the shard buffer already held covers the configuration and only the index bitmap ({} bits) had to grow", kind.name(), acc.largest, need.bitmap_bits),
+            false,
+        );
+    }
+    false
+}
+
 pub fn panic_props(op: &'static str, failed_ever: bool) -> Vec<&'static str> {
     let mut p = vec!["C06"];
     if failed_ever {
@@ -127,6 +157,8 @@ pub fn panic_props(op: &'static str, failed_ever: bool) -> Vec<&'static str> {
     match op {
         "result" | "drop" => p.push("C12"),
         "new" | "reset" | "supports" | "validate" => p.push("C08"),
+        // a configuration that new / reset accepted must really encode and decode (C08's last clause)
+        "add" | "encode" | "decode" => p.push("C08"),
         "oneshot" => p.push("C10"),
         _ => {}
     }
@@ -362,6 +394,11 @@ fn static_probe(ch: &mut Chooser, ctx: &mut Ctx, kind: Kind, decoder: bool) -> b
 
 /// A reset / new target: mostly valid, biased to same-config, shrink-then-grow, crossing the rate boundary.
 fn gen_next_config(ch: &mut Chooser, kind: Kind, cur: (usize, usize, usize)) -> (usize, usize, usize) {
+    let (k, r, b) = gen_next_config_any(ch, kind, cur);
+    (k, r, clamp_bytes_for(kind, b))
+}
+
+fn gen_next_config_any(ch: &mut Chooser, kind: Kind, cur: (usize, usize, usize)) -> (usize, usize, usize) {
     match ch.weighted("next.kind", &[3, 3, 2, 2, 2]) {
         4 => {
             // same total need in another shape: half the counts with double the shard size, or the reverse
@@ -383,7 +420,7 @@ fn gen_next_config(ch: &mut Chooser, kind: Kind, cur: (usize, usize, usize)) -> 
             // swap counts (crosses the rate boundary for the default family), keep or change size
             let (k, r, b) = cur;
             if envelope::supported(kind.layer.family(), r, k) {
-                (r, k, if ch.chance("next.keepb", 1, 2) { b } else { gen_bytes(ch, 322) })
+                (r, k, if ch.chance("next.keepb", 1, 2) { b } else { gen_bytes(ch, if k + r > 8 { 321 } else { 322 }) })
             } else {
                 gen_config_for(ch, kind)
             }
@@ -456,17 +493,14 @@ pub enum Outcome {
     Panic,
 }
 
-/// Payload of the simulated caller's panic (raised with `resume_unwind`, so no panic hook runs).
-struct CallerCrash;
-
 /// Drops `value` by unwinding: a panic of the caller's own code while `value` is alive, caught by the caller.
 pub fn unwind_through<T>(value: T) {
     let r = std::panic::catch_unwind(std::panic::AssertUnwindSafe(move || {
         let _alive = value;
-        std::panic::resume_unwind(Box::new(CallerCrash));
+        std::panic::resume_unwind(Box::new(crate::codec::CallerCrash));
     }));
     if let Err(p) = r {
-        if !p.is::<CallerCrash>() {
+        if !p.is::<crate::codec::CallerCrash>() {
             std::panic::resume_unwind(p);
         }
     }
@@ -488,6 +522,9 @@ pub enum EncCall<'a> {
 
 fn enc_history_props(ctx: &mut Ctx, st: &EncState, call: &EncCall, got: &Outcome) -> Vec<&'static str> {
     let mut extra = Vec::new();
+    if layer_divergence_pending() {
+        extra.push("C09"); // the ReedSolomonEncoder wrapper answered differently from the codec it is documented to be
+    }
     if let (EncCall::Add(shard), Outcome::Err(Error::DifferentShardSize { .. } | Error::InvalidShardSize { .. })) = (call, got) {
         if shard.len() == st.cfg.2 {
             extra.push("C04"); // a shard of exactly the configured size is refused for its size
@@ -557,6 +594,9 @@ pub enum DecCall<'a> {
 
 fn dec_history_props(ctx: &mut Ctx, st: &DecState, call: &DecCall, got: &Outcome) -> Vec<&'static str> {
     let mut extra = Vec::new();
+    if layer_divergence_pending() {
+        extra.push("C09");
+    }
     if let (DecCall::Add(_, _, shard), Outcome::Err(Error::DifferentShardSize { .. } | Error::InvalidShardSize { .. })) = (call, got) {
         if shard.len() == st.cfg.2 {
             extra.push("C04");
@@ -695,6 +735,8 @@ struct EncState {
     rounds: u32,
     /// successful rounds since construction or the last explicit reset (each ended with a dropped result)
     since_reset: u32,
+    /// a result of this object was leaked: the next operation is an explicit reset
+    must_reset: bool,
 }
 
 fn enc_need(kind: Kind, cfg: (usize, usize, usize)) -> Need {
@@ -736,6 +778,7 @@ fn marathon_marks(ch: &mut Chooser, idle: usize, n: usize) -> Vec<usize> {
 }
 
 pub fn run_encoder(ch: &mut Chooser, ctx: &mut Ctx) {
+    let _ = take_layer_divergence();
     let mut pool = Pool::default();
     let kind = gen_kind(ch);
     let marathon = gen_marathon(ch, kind);
@@ -768,6 +811,7 @@ pub fn run_encoder(ch: &mut Chooser, ctx: &mut Ctx) {
         held: enc_need(kind, cfg),
         rounds: 0,
         since_reset: 0,
+        must_reset: false,
     };
 
     // mostly short histories; one in twenty is long (many consecutive rounds and resets on one object)
@@ -776,7 +820,10 @@ pub fn run_encoder(ch: &mut Chooser, ctx: &mut Ctx) {
         if ctx.stop {
             return;
         }
-        if let (Some((_, idle)), 30) = (marathon, op_no) {
+        if st.cfg.2 > 100_000 && op_no >= 14 {
+            break; // histories on shards of 128 KiB and more stay short (cost)
+        }
+        if let (Some((_, idle)), 30, true) = (marathon, op_no, st.cfg.0 + st.cfg.1 <= 64 && st.cfg.2 <= 128) {
             // the idle stretch: resets to the configuration the object has, now and then with a shard added before
             let (k, r, b) = st.cfg;
             ctx.count("probe.marathon_histories");
@@ -806,7 +853,7 @@ pub fn run_encoder(ch: &mut Chooser, ctx: &mut Ctx) {
         let (k, _r, b) = st.cfg;
         let fill = st.shards.len();
         let fill_class = if fill == 0 { 0 } else if fill == k { 3 } else if fill + 1 == k { 2 } else { 1 };
-        let op = ch.weighted("enc.op", &[30, 6, 22, 8, 6, 5, 4, 1]);
+        let op = if st.must_reset { 3 } else { ch.weighted("enc.op", &[30, 6, 22, 8, 6, 5, 4, 1]) };
         ctx.hash.feed_u64(op as u64);
         ctx.distinct(&[0xE0, st.kind.layer as u64, st.kind.engine as u64, fill_class, op as u64, u64::from(st.failed_round), u64::from(st.has_history)]);
         match op {
@@ -898,7 +945,13 @@ pub fn run_encoder(ch: &mut Chooser, ctx: &mut Ctx) {
             }
             // ---------------------------------------------------- reset (valid)
             3 => {
-                let next = if marathon.is_some() && ch.chance("marathon.stay", 3, 4) { gen_sibling_config(ch, st.kind, st.cfg) } else { gen_next_config(ch, st.kind, st.cfg) };
+                let next = if st.must_reset && ch.chance("leak.samecfg", 1, 2) {
+                    st.cfg
+                } else if marathon.is_some() {
+                    gen_sibling_config(ch, st.kind, st.cfg)
+                } else {
+                    gen_next_config(ch, st.kind, st.cfg)
+                };
                 let need = enc_need(st.kind, next);
                 let mut acc = AllocStats::default();
                 let res = ctx.guarded(true, || meas(&mut acc, || obj.reset(next.0, next.1, next.2)));
@@ -930,6 +983,7 @@ pub fn run_encoder(ch: &mut Chooser, ctx: &mut Ctx) {
                 st.held = grow(st.held, need);
                 st.cfg = next;
                 st.since_reset = 0;
+                st.must_reset = false;
                 st.shards.clear();
                 st.failed_round = false;
                 st.has_history = true;
@@ -972,7 +1026,7 @@ pub fn run_encoder(ch: &mut Chooser, ctx: &mut Ctx) {
                         return;
                     }
                 }
-                let next = gen_next_config(ch, new_kind, st.cfg);
+                let next = if marathon.is_some() { gen_sibling_config(ch, new_kind, st.cfg) } else { gen_next_config(ch, new_kind, st.cfg) };
                 let next = if envelope::supported(new_kind.layer.family(), next.0, next.1) { next } else { gen_config_for(ch, new_kind) };
                 let (work, held) = if new_kind.layer != Layer::Rs && !pool.enc.is_empty() && ch.chance("recycle.usepool", 3, 4) {
                     let i = ch.pick_usize("recycle.which", pool.enc.len());
@@ -1024,11 +1078,32 @@ pub fn run_encoder(ch: &mut Chooser, ctx: &mut Ctx) {
                     held: grow(held, need),
                     rounds: 0,
                     since_reset: 0,
+                    must_reset: false,
                 };
             }
             // ---------------------------------------------------- a shard whose as_ref() is not pure (ends the history)
             7 => {
                 let first = gen_shard(st.data_seed, 0, fill, b);
+                if fill < k && ch.chance("enc.flaky.panics", 1, 2) {
+                    // the shard's as_ref() panics and the caller catches it (fault F19): as if the call had not been made
+                    let flaky = Flaky::panicking(&first);
+                    let res = ctx.guarded(true, || catch_caller_crash(|| obj.add_flaky(&flaky)));
+                    ctx.count("fault.F19.as_ref_panics");
+                    match res {
+                        Ok(None) => {
+                            ev!(ctx, "#{op_no} add_original_shard(shard whose as_ref() panics) -> unwound");
+                            continue;
+                        }
+                        Ok(Some(r)) => {
+                            ev!(ctx, "#{op_no} add_original_shard(shard whose as_ref() panics) -> {r:?} without looking at the shard");
+                            return;
+                        }
+                        Err(msg) => {
+                            report_panic(ctx, &st.kind.name(), "add", "add_original_shard(shard whose as_ref() panics)", st.failed_ever, &msg);
+                            return;
+                        }
+                    }
+                }
                 let later_len = [b + 2, b.saturating_sub(2), 0, b, 1][ch.pick_usize("enc.flaky.len", 5)];
                 let later = vec![0x3Cu8; later_len];
                 let flaky = Flaky::new(&first, &later);
@@ -1063,6 +1138,11 @@ pub fn run_encoder(ch: &mut Chooser, ctx: &mut Ctx) {
                 if static_probe(ch, ctx, st.kind, false) {
                     return;
                 }
+            }
+        }
+        if let Some(d) = take_layer_divergence() {
+            if ctx.viol(&["C09"], "api-layers-agree", format!("layers/{}", d.split(':').next().unwrap_or("")), format!("{:?}: {d}", st.cfg), true) {
+                return;
             }
         }
         if lockstep_check(ctx, st.kind, "encoder history") {
@@ -1104,6 +1184,7 @@ fn enc_encode(ch: &mut Chooser, ctx: &mut Ctx, obj: &mut dyn DynEncoder, st: &mu
     if crash_drop {
         ctx.count("fault.F14.caller_unwinds_through_result");
     }
+    let leak = ch.chance("enc.leak", 1, 16);
     let mut acc = AllocStats::default();
     let mut stage = "encode";
     let out = ctx.guarded(true, || {
@@ -1123,7 +1204,11 @@ fn enc_encode(ch: &mut Chooser, ctx: &mut Ctx, obj: &mut dyn DynEncoder, st: &mu
                     std::hint::black_box(n);
                 });
                 stage = "drop";
-                if crash_drop {
+                if leak {
+                    // the result is leaked (its destructor never runs); the only thing the caller may do with the
+                    // object afterwards is an explicit reset, which must start from scratch like any reset
+                    std::mem::forget(result);
+                } else if crash_drop {
                     // the caller panics while the result is alive and catches the panic further up: the result is
                     // dropped by unwinding, which must start a new round like any other drop
                     unwind_through(result);
@@ -1168,6 +1253,10 @@ fn enc_encode(ch: &mut Chooser, ctx: &mut Ctx, obj: &mut dyn DynEncoder, st: &mu
         Ok(p) => p,
     };
     ctx.count("enc.rounds");
+    if leak {
+        st.must_reset = true;
+        ctx.count("fault.F18.result_leaked_then_reset");
+    }
     if b % 64 != 0 {
         ctx.count("probe.partial_last_block");
     }
@@ -1186,6 +1275,13 @@ fn enc_encode(ch: &mut Chooser, ctx: &mut Ctx, obj: &mut dyn DynEncoder, st: &mu
             // a recovery shard handed out under the wrong index (or another shard under that index) is also not the shard
             // the code defines for that index (C02), whichever accessor or iterator adaptor delivered it
             let props: &[&'static str] = if why.contains(" bytes, expected") { &["C12", "C04"] } else if why.contains("disagree") || why.contains("differs") { &["C12", "C02"] } else { &["C12"] };
+            let mut props = props.to_vec();
+            // history dependence: a freshly built object given the same round passes the same probe
+            let (kk, rr, bb) = st.cfg;
+            if (st.has_history || st.rounds > 0) && matches!(ctx.shadow(|| fresh_encoder_probe_ok(st.kind, kk, rr, bb, &st.shards, probe_seed)), Ok(true)) {
+                props.push("C05");
+            }
+            let props = &props[..];
             return ctx.viol(props, "result-contract", format!("enc-result/{}", why.split_whitespace().next().unwrap_or("")), format!("{}{:?} EncoderResult: {why}", st.kind.name(), st.cfg), true);
         }
     };
@@ -1376,6 +1472,8 @@ struct DecState {
     last_round: Vec<(bool, usize)>,
     /// positions the next valid delivery repeats (set by a reset to a sibling configuration)
     script: Vec<(bool, usize)>,
+    /// a result of this object was leaked: the next operation is an explicit reset
+    must_reset: bool,
 }
 
 fn dec_need(kind: Kind, cfg: (usize, usize, usize)) -> Need {
@@ -1402,6 +1500,7 @@ impl DecState {
             since_reset: 0,
             last_round: Vec::new(),
             script: Vec::new(),
+            must_reset: false,
         })
     }
     fn clear_round(&mut self) {
@@ -1429,6 +1528,7 @@ pub fn weird_index(ch: &mut Chooser, count: usize) -> usize {
 }
 
 pub fn run_decoder(ch: &mut Chooser, ctx: &mut Ctx) {
+    let _ = take_layer_divergence();
     let mut pool = Pool::default();
     let kind = gen_kind(ch);
     let marathon = gen_marathon(ch, kind);
@@ -1457,7 +1557,10 @@ pub fn run_decoder(ch: &mut Chooser, ctx: &mut Ctx) {
         if ctx.stop {
             return;
         }
-        if let (Some((_, idle)), 30) = (marathon, op_no) {
+        if st.cfg.2 > 100_000 && op_no >= 14 {
+            break; // histories on shards of 128 KiB and more stay short (cost)
+        }
+        if let (Some((_, idle)), 30, true) = (marathon, op_no, st.cfg.0 + st.cfg.1 <= 64 && st.cfg.2 <= 128) {
             // the idle stretch: resets to the configuration the object has, now and then with a shard added before
             let (k, r, b) = st.cfg;
             ctx.count("probe.marathon_histories");
@@ -1492,7 +1595,7 @@ pub fn run_decoder(ch: &mut Chooser, ctx: &mut Ctx) {
         let (k, r, b) = st.cfg;
         let have = st.n_o + st.n_r;
         let fill_class = if have == 0 { 0 } else if have >= k { 3 } else if have + 1 == k { 2 } else { 1 };
-        let op = ch.weighted("dec.op", &[30, 5, 5, 5, 22, 7, 5, 5, 4, 1]);
+        let op = if st.must_reset { 5 } else { ch.weighted("dec.op", &[30, 5, 5, 5, 22, 7, 5, 5, 4, 1]) };
         ctx.hash.feed_u64(op as u64);
         ctx.distinct(&[0xD0, st.kind.layer as u64, st.kind.engine as u64, fill_class, op as u64, u64::from(st.failed_round), u64::from(st.has_history), u64::from(st.n_o == k)]);
         match op {
@@ -1673,7 +1776,13 @@ pub fn run_decoder(ch: &mut Chooser, ctx: &mut Ctx) {
                 // doubled or off by one, same shard size) and the next delivery repeats the previous round's
                 // positions: whatever the object derived from "which positions arrived" must not survive
                 let sibling = !st.last_round.is_empty() && ch.chance("reset.sibling", 1, 3);
-                let next = if sibling || (marathon.is_some() && ch.chance("marathon.stay", 3, 4)) { gen_sibling_config(ch, st.kind, st.cfg) } else { gen_next_config(ch, st.kind, st.cfg) };
+                let next = if st.must_reset && ch.chance("leak.samecfg", 1, 2) {
+                    st.cfg
+                } else if sibling || marathon.is_some() {
+                    gen_sibling_config(ch, st.kind, st.cfg)
+                } else {
+                    gen_next_config(ch, st.kind, st.cfg)
+                };
                 let need = dec_need(st.kind, next);
                 let mut acc = AllocStats::default();
                 let res = ctx.guarded(true, || meas(&mut acc, || obj.reset(next.0, next.1, next.2)));
@@ -1698,6 +1807,9 @@ pub fn run_decoder(ch: &mut Chooser, ctx: &mut Ctx) {
                     }
                 } else {
                     ctx.count("probe.reset_growing");
+                    if need.blocks <= st.held.blocks && alloc_check_bitmap_only(ctx, st.kind, &format!("reset{next:?}"), &acc, need) {
+                        return;
+                    }
                 }
                 if envelope::effective_high(st.kind.layer.family(), next.0, next.1) != st.stripe.high {
                     ctx.count("probe.reset_crosses_rate");
@@ -1749,7 +1861,7 @@ pub fn run_decoder(ch: &mut Chooser, ctx: &mut Ctx) {
                         return;
                     }
                 }
-                let next = gen_next_config(ch, new_kind, st.cfg);
+                let next = if marathon.is_some() { gen_sibling_config(ch, new_kind, st.cfg) } else { gen_next_config(ch, new_kind, st.cfg) };
                 let next = if envelope::supported(new_kind.layer.family(), next.0, next.1) { next } else { gen_config_for(ch, new_kind) };
                 let (work, held) = if new_kind.layer != Layer::Rs && !pool.dec.is_empty() && ch.chance("recycle.usepool", 3, 4) {
                     let i = ch.pick_usize("recycle.which", pool.dec.len());
@@ -1786,6 +1898,8 @@ pub fn run_decoder(ch: &mut Chooser, ctx: &mut Ctx) {
                         if alloc_check(ctx, new_kind, &format!("new{next:?} on recycled working space"), "the handed-over working space already covers the configuration", &acc) {
                             return;
                         }
+                    } else if need.blocks <= held.blocks && alloc_check_bitmap_only(ctx, new_kind, &format!("new{next:?} on recycled working space"), &acc, need) {
+                        return;
                     }
                 }
                 let Some(s) = DecState::fresh(ch, ctx, new_kind, next, grow(held, need), recycled) else { return };
@@ -1801,6 +1915,26 @@ pub fn run_decoder(ch: &mut Chooser, ctx: &mut Ctx) {
                 }
                 let index = missing[ch.pick_usize("dec.flaky.idx", missing.len())];
                 let first = if is_rec { st.stripe.recovery[index].clone() } else { st.stripe.originals[index].clone() };
+                if ch.chance("dec.flaky.panics", 1, 2) {
+                    // the shard's as_ref() panics and the caller catches it (fault F19): as if the call had not been made
+                    let flaky = Flaky::panicking(&first);
+                    let res = ctx.guarded(true, || catch_caller_crash(|| obj.add_flaky(is_rec, index, &flaky)));
+                    ctx.count("fault.F19.as_ref_panics");
+                    match res {
+                        Ok(None) => {
+                            ev!(ctx, "#{op_no} add_{}_shard({index}, shard whose as_ref() panics) -> unwound", if is_rec { "recovery" } else { "original" });
+                            continue;
+                        }
+                        Ok(Some(r)) => {
+                            ev!(ctx, "#{op_no} add_{}_shard({index}, shard whose as_ref() panics) -> {r:?} without looking at the shard", if is_rec { "recovery" } else { "original" });
+                            return;
+                        }
+                        Err(msg) => {
+                            report_panic(ctx, &st.kind.name(), "add", &format!("add_{}_shard({index}, shard whose as_ref() panics)", if is_rec { "recovery" } else { "original" }), st.failed_ever, &msg);
+                            return;
+                        }
+                    }
+                }
                 let later_len = [b + 2, b.saturating_sub(2), 0, b, 1][ch.pick_usize("dec.flaky.len", 5)];
                 let later = vec![0x3Cu8; later_len];
                 let flaky = Flaky::new(&first, &later);
@@ -1826,6 +1960,11 @@ pub fn run_decoder(ch: &mut Chooser, ctx: &mut Ctx) {
                 if static_probe(ch, ctx, st.kind, true) {
                     return;
                 }
+            }
+        }
+        if let Some(d) = take_layer_divergence() {
+            if ctx.viol(&["C09"], "api-layers-agree", format!("layers/{}", d.split(':').next().unwrap_or("")), format!("{:?}: {d}", st.cfg), true) {
+                return;
             }
         }
         if lockstep_check(ctx, st.kind, "decoder history") {
@@ -1868,6 +2007,7 @@ fn dec_decode(ch: &mut Chooser, ctx: &mut Ctx, obj: &mut dyn DynDecoder, st: &mu
     if crash_drop {
         ctx.count("fault.F14.caller_unwinds_through_result");
     }
+    let leak = ch.chance("dec.leak", 1, 16);
     let mut acc = AllocStats::default();
     let mut stage = "decode";
     let given_o = st.given_o.clone();
@@ -1887,7 +2027,11 @@ fn dec_decode(ch: &mut Chooser, ctx: &mut Ctx, obj: &mut dyn DynDecoder, st: &mu
                     std::hint::black_box(n);
                 });
                 stage = "drop";
-                if crash_drop {
+                if leak {
+                    // the result is leaked (its destructor never runs); the only thing the caller may do with the
+                    // object afterwards is an explicit reset, which must start from scratch like any reset
+                    std::mem::forget(result);
+                } else if crash_drop {
                     // the caller panics while the result is alive and catches the panic further up: the result is
                     // dropped by unwinding, which must start a new round like any other drop
                     unwind_through(result);
@@ -1966,6 +2110,13 @@ fn dec_decode(ch: &mut Chooser, ctx: &mut Ctx, obj: &mut dyn DynDecoder, st: &mu
         Ok(m) => m,
         Err(why) => {
             let props: &[&'static str] = if why.contains(" bytes, expected") { &["C12", "C04"] } else { &["C12", "C11", "C01"] };
+            let mut props = props.to_vec();
+            // history dependence: a freshly built object given the same round passes the same probe
+            let (kk, rr, bb) = st.cfg;
+            if (st.has_history || st.rounds > 0) && matches!(ctx.shadow(|| fresh_decoder_probe_ok(st.kind, kk, rr, bb, &st.adds, probe_seed)), Ok(true)) {
+                props.push("C05");
+            }
+            let props = &props[..];
             return ctx.viol(props, "result-contract", format!("dec-result/{}", why.split_whitespace().next().unwrap_or("")), format!("{}{:?} DecoderResult: {why}", st.kind.name(), st.cfg), true);
         }
     };
@@ -2111,6 +2262,10 @@ fn dec_decode(ch: &mut Chooser, ctx: &mut Ctx, obj: &mut dyn DynDecoder, st: &mu
         }
     }
 
+    if leak {
+        st.must_reset = true;
+        ctx.count("fault.F18.result_leaked_then_reset");
+    }
     st.last_round = st.adds.iter().map(|a| (a.is_rec, a.index)).collect();
     st.clear_round();
     st.rounds += 1;
